@@ -137,6 +137,7 @@ namespace {
          auto it = model.find(q);
          const ipr::Expr* want = it == model.end() ? static_cast<const ipr::Expr*>(w.P[q]) : w.V[it->second];
          rep.count("states");
+         if (rep.samples.size() < rep.sample_cap and i + 1 == h.size() and h.size() >= 4) rep.sample(vf::JObj{}.str("operations", ops_text(h)).str("last_query_answer", it == model.end() ? "the parameter itself" : "the value bound last").done());
          if (got == want) continue;
          std::vector<long long> ops(h.begin(), h.begin() + long(i) + 1);
          bool stale = false;
